@@ -116,7 +116,9 @@ def dispatchC05 : List Str → Option (List Str)
                 joinSep ';' ((bindLinksOf true (entsToList fs) q q).map fun (t, b, d) =>
                   joinSep '.' [showNat t, showNat b, showNat d]),
                 joinSep ';' ((bindLinksOf false (entsToList fs) q q).map fun (t, b, d) =>
-                  joinSep '.' [showNat t, showNat b, showNat d])]
+                  joinSep '.' [showNat t, showNat b, showNat d]),
+                -- graph nodes (of every entity, removed ones included) that carry a URL: `entity.page`
+                joinSep ';' ((nodeUrlsOf (entsToList fs) q p).map fun (x, pg) => joinSep '.' [showNat x, showNat pg])]
         | _ => some ["bad-tree".toList]
       | _ => some ["bad-request".toList]
     else if cmd == "c05.links".toList then
